@@ -7,6 +7,7 @@ import vlib, apidrive
 TEST = 'TestVerifC11'
 
 ASSUME = [
+    'parked requests (TestVerifC11Park): GET messages / POST message / DELETE on the id the NEXT session will get (message offset + next raft index), with a wrong / another session\'s / a same-length / a one-character credential, sent before the victim creates exactly that session, logs in and is sent a private message: never answered 200, never carries the victim\'s messages, never ends the session, never committed',
     'single-node network in-process: real hashicorp/raft (in-memory transport), real FSM, real LevelDB raftlog/irclog, FileSnapshotStore; the real api.HTTP.DispatchPublic / DispatchPrivate are called through httptest (no TLS listener, no net/http mux: the mux of robustirc.go sends /robustirc/v1/ to DispatchPublic and everything else to DispatchPrivate, the harness does the same)',
     'the node is the raft leader: a request for a session that is "not yet seen" is answered locally (404 / 500) instead of being proxied to the leader',
     'a refused request is one whose status is not 2xx; "no effect" = last raft log index, number of command and configuration entries, canonical dump of the IRC state, output stream position, cluster size and the deletestate file are equal before and after',
@@ -167,6 +168,18 @@ def run(tier):
             else:
                 bysig[v['sig']] = v
     viols = list(bysig.values())
+    # parked requests: a request on a session id that does not exist yet, then the victim creates that session
+    rp = vlib.run_workers(binary, 'TestVerifC11Park', 12, env={'GOMAXPROCS': '2'})
+    perr = [r['harness_error'] for r in rp if r.get('harness_error')]
+    if perr:
+        print('HARNESS-ERROR: ' + perr[0])
+        raise SystemExit(3)
+    parked = {}
+    for r in rp:
+        for k, c in (r.get('end_states') or {}).items(): parked[k] = parked.get(k, 0) + c
+        for v in r.get('violations') or []:
+            if v['sig'] not in bysig:
+                bysig[v['sig']] = v; viols.append(v)
     died = [r for r in rs if r.get('in_flight') and r.get('_rc')]
     if died:
         viols.append({'sig': 'C11:handler crashed the process', 'prop': 'C11', 'count': len(died),
@@ -195,6 +208,7 @@ def run(tier):
         'private_routes_parsed_from_source': routes,
         'worlds_lost_by_history_operation': lost,
         'off_route_requests_with_effect': sum(r.get('off_route_accepted', 0) for r in rs),
+        'parked_requests': parked,
     }
     vlib.finish('C11', tier, 'exploration', cov, viols, t0, assumptions=ASSUME)
 
